@@ -170,9 +170,10 @@ class Effects:
     """Record everything an operation does to the outside: stream bytes, file-system events
     (audit hook), sandbox snapshot diff.  cwd is <root>/cwd."""
 
-    def __init__(self, root, tty=False, no_color=False, plan=None, cwd_rel="cwd", extra_env=None):
+    def __init__(self, root, tty=False, no_color=False, plan=None, cwd_rel="cwd", extra_env=None, tmpdir_abs=None):
         self.cwd_rel = cwd_rel
         self.extra_env = extra_env
+        self.tmpdir_abs = tmpdir_abs
         self.root = os.path.realpath(root)
         self.tty = tty
         self.no_color = no_color
@@ -190,6 +191,14 @@ class Effects:
         seams.set_terminal_env(root, no_color=self.no_color)
         if self.extra_env:
             os.environ[self.extra_env] = "1"  # e.g. FORCE_COLOR / TTY_COMPATIBLE as CI systems set them
+        if self.tmpdir_abs:
+            # the temp directory lives on ANOTHER file system than the working directory (tmpfs vs disk)
+            os.makedirs(self.tmpdir_abs, exist_ok=True)
+            os.environ["TMPDIR"] = self.tmpdir_abs
+            import tempfile
+
+            tempfile.tempdir = None
+            self.tmp_before = seams.snapshot(self.tmpdir_abs)
         self.before = seams.snapshot(root)
         self.out, self.err = seams.Rec(self.tty, "<stdout>"), seams.Rec(self.tty, "<stderr>")
         self.saved = (sys.stdout, sys.stderr, V.__dict__.get("open"), H.__dict__.get("open"))
@@ -212,14 +221,22 @@ class Effects:
                 mod.open = old
         os.chdir(self.old_cwd)
         self.after = seams.snapshot(self.root)
+        if self.tmpdir_abs:
+            self.tmp_after = seams.snapshot(self.tmpdir_abs)
         return False
 
     def summary(self):
         created, removed, changed = seams.snap_diff(self.before, self.after)
+        if self.tmpdir_abs:
+            c2, r2, ch2 = seams.snap_diff(self.tmp_before, self.tmp_after)
+            created = created + ["<TMPDIR>/" + x for x in c2]
+            removed = removed + ["<TMPDIR>/" + x for x in r2]
+            changed = changed + ["<TMPDIR>/" + x for x in ch2]
         return {
             "stdout": self.out.getvalue().replace(self.root, "<SBX>"),
             "stderr": self.err.getvalue().replace(self.root, "<SBX>"),
             "created": created, "removed": removed, "changed": changed,
             "writes": [list(e) for e in self.audit if (e[0] == "open" and e[2] == "w") or e[0] != "open"],
+            "tmpdir": self.tmpdir_abs,
             "io": [list(e) for e in self.io.log],
         }
